@@ -3,7 +3,7 @@
 out="$1"; i="$2"; tag="$(basename $out)_$i"
 wt=/tmp/cf_$tag
 res=/tmp/confirm/$tag.txt; mkdir -p /tmp/confirm
-git -C /repo worktree add -q --detach $wt HEAD || exit 2
+for try in 1 2 3 4 5; do git -C /repo worktree add -q --detach $wt HEAD && break; sleep 3; done; [ -d $wt ] || { echo "INFRA: worktree add failed"; exit 2; }
 cd $wt
 {
 echo "== $tag"
